@@ -13,6 +13,9 @@ import Sqfs.Proofs.EncTables
 import Sqfs.Proofs.EncMetaPos
 import Sqfs.Proofs.EncXattr
 import Sqfs.Proofs.EncXattrRec
+import Sqfs.Proofs.EncXattrRef
+import Sqfs.Proofs.EncXattrLoc
+import Sqfs.Proofs.EncXattrE2E
 import Sqfs.Proofs.EncTree
 import Sqfs.Proofs.PackContent2
 namespace Sqfs.C01
@@ -228,30 +231,116 @@ example : SuperValid exampleSuper := ⟨by decide, by decide, by decide, by deci
 
 /-! ## extended attributes -/
 
-/-- **xattr round trip (flush → read).**  `w` is any state of the xattr writer in which every recorded pair is
-representable (known prefix, key remainder < 64 KiB, value < 4 GiB); `(refOf, posOf)` any reference encoding in which
-the reader's seek undoes the writer's `get_position` (`meta_ref_roundtrip` provides it for metadata blocks).  Then
-reading set index `j` from the flushed key/value and descriptor streams yields exactly the pairs of set `j` as the
-writer stores them (sorted by key/value index, duplicates of a key replaced, equal sets stored once —
-`xattr_record_index`), keys with their prefix, values byte for byte, whether stored in line or **out of line**
-(a value seen before, referenced ≥ 2 times and longer than 8 bytes), for **any number of sets** (multiples of 512
-included: the descriptor stream is read flat here, its location array is `xattr_loc_index_lt_count`). -/
-theorem xattr_roundtrip (refOf : Nat → Nat) (posOf : Nat → Option Nat) (hr : RefOk refOf posOf) (w : XWriter)
+/-- **xattr round trip (flush → read, through the id table's location array).**  `w` is any state of the xattr writer
+in which every recorded pair is representable (known prefix, key remainder < 64 KiB, value < 4 GiB) — every state
+`recordAll` reaches (`xattr_input_roundtrip` derives `hp`, `hcount` instead of assuming them); `(refOf, posOf)` any
+reference encoding in which the reader's seek undoes the writer's `get_position` **on the positions below the finished
+stream's length** (`xattr_refs_ok`: the real arithmetic satisfies this).  `xattrFlush` writes the key/value stream, the
+descriptors into metadata blocks (any codec meeting the contract) and the array of block start offsets; the reader
+(`XFlush.reader`, the algorithm of `sqfs_xattr_reader_get_desc`/`read_key`/`read_value`) finds descriptor `j` through
+`locations[j * 16 / 8192]`, seeks, and reads exactly the pairs of set `j` as the writer stores them: keys with their
+prefix, values byte for byte, in line or **out of line**, for **any number of sets** (multiples of 512 included). -/
+theorem xattr_roundtrip {cmp : Codec} {unc : Unc} (hc : CodecOk cmp unc) (refOf : Nat → Nat) (posOf : Nat → Option Nat)
+    (bound : Nat) (hr : RefOk refOf posOf bound) (w : XWriter)
+    (hbound : (flushKv refOf w).1.length ≤ bound) (hkv32 : (flushKv refOf w).1.length < 2 ^ 32)
+    (hpairs32 : w.pairs.length < 2 ^ 32)
     (hp : ∀ b ∈ w.blocks, ∀ p ∈ blockPairs w.pairs b, PairOk w p)
-    (hfit : ∀ d ∈ (flushKv refOf w).2, d.count < 2 ^ 32 ∧ d.size < 2 ^ 32)
     (hcount : ∀ b ∈ w.blocks, (blockPairs w.pairs b).length = b.2)
     (j : Nat) (hj : j < w.blocks.length) (hj32 : j ≠ NONE32) :
-    readSet ⟨(flushKv refOf w).1, encDescs (flushKv refOf w).2, w.blocks.length, posOf⟩ j = .ok (w.setOf j) :=
-  readSet_flush refOf posOf hr w hp hfit hcount j hj hj32
+    readSet ((xattrFlush cmp refOf w).reader unc posOf) j = .ok (w.setOf j) :=
+  readSet_xattrFlush hc refOf posOf bound hr w hbound hkv32 hpairs32 hp hcount j hj hj32
 
--- two sets sharing a 9-byte value: the second copy is stored out of line (a reference to position 5) and reads back
+/-- **The reference contract of `xattr_roundtrip` holds for the real arithmetic**: (1) uncompressed metadata
+(`rawRef`/`rawPos`, what the unit correspondence runs), any stream below 2⁴⁷ bytes; (2) the blocks of **any** meta
+writer run, whatever the compressed sizes: `refOfPos` packed into a 64-bit reference, undone by searching the position
+(`posOfBlocks`), for every position up to the stream's length. -/
+theorem xattr_refs_ok :
+    (∀ bound, bound < 2 ^ 47 → RefOk rawRef rawPos bound)
+    ∧ (∀ (cmp : Codec) (blocks : List Sqfs.MetaWriter.Block), BlocksOk cmp blocks → startOf blocks blocks.length < 2 ^ 48 →
+        RefOk (refOfBlocks blocks) (posOfBlocks blocks (rawOf blocks).length) (rawOf blocks).length) :=
+  ⟨refOk_raw, refOk_blocks⟩
+
+/-- **The xattr clause from the input to the read-back.**  `sets` are the key/value strings handed to
+`begin`/`add_kv`…/`end`, one list per inode.  If every key has a known prefix and a remainder < 64 KiB and every value
+is < 4 GiB, the writer accepts them all (interning keys and values, replacing the value of a key added twice, sorting
+each set, storing equal sets once); and if the finished key/value stream, the pair array and the number of distinct
+sets fit their 32-bit fields, then reading the index handed out for the k-th inode — descriptor through the location
+array, key/value pairs, out-of-line values — returns the k-th input set with later values of a key replacing earlier
+ones (`canonSet`) in the writer's order, a permutation of it; an inode whose set is empty gets `0xFFFFFFFF`. -/
+theorem xattr_input_roundtrip {cmp : Codec} {unc : Unc} (hc : CodecOk cmp unc) (refOf : Nat → Nat) (posOf : Nat → Option Nat)
+    (bound : Nat) (hr : RefOk refOf posOf bound) (sets : List (List (Bytes × Bytes)))
+    (hs : ∀ s ∈ sets, ∀ kv ∈ s, KvOk kv) :
+    ∃ wF idxs, recordAll {} sets = .ok (wF, idxs) ∧ idxs.length = sets.length ∧
+      ((flushKv refOf wF).1.length ≤ bound → (flushKv refOf wF).1.length < 2 ^ 32 → wF.pairs.length < 2 ^ 32 →
+        wF.blocks.length ≤ NONE32 →
+        ∀ k, k < sets.length →
+          (canonSet (sets.getD k []) = [] ∧ idxs.getD k 0 = NONE32) ∨
+          (canonSet (sets.getD k []) ≠ [] ∧ idxs.getD k 0 ≠ NONE32 ∧
+            ∃ out, readSet ((xattrFlush cmp refOf wF).reader unc posOf) (idxs.getD k 0) = .ok out
+              ∧ out = (sortPairs ((canonSet (sets.getD k [])).map (idxPair wF))).map (strPair wF)
+              ∧ out.Perm (canonSet (sets.getD k [])))) :=
+  recordAll_flush_read hc refOf posOf bound hr sets hs
+
+/-- four inodes: one value shared by three sets (stored out of line from its second use on), an empty set, a key set
+twice, and a last set equal to the first after replacement -/
+def exampleSets : List (List (Bytes × Bytes)) :=
+  let k1 : List UInt8 := prefixUser ++ [0x61]; let k2 : List UInt8 := prefixTrusted ++ [0x62]
+  let v : List UInt8 := [1, 2, 3, 4, 5, 6, 7, 8, 9]
+  [[(k1, v)], [], [(k2, v), (k1, []), (k2, v)], [(k1, [5]), (k1, v)]]
+
+theorem codecOk_none : CodecOk (fun _ => none) (fun _ => none) := ⟨fun _ _ h => (by cases h), fun _ _ h _ => (by cases h)⟩
+
+-- `xattr_input_roundtrip` instantiated: every hypothesis discharged for `exampleSets`, uncompressed metadata and
+-- the real reference arithmetic; the conclusion, evaluated, is the four sets read back (the third one with its
+-- shared value stored **out of line**: the stream holds a reference to position 5 at offset 27)
 example :
-    let k1 : List UInt8 := prefixUser ++ [0x61]; let k2 : List UInt8 := prefixTrusted ++ [0x62]
-    let v : List UInt8 := [1, 2, 3, 4, 5, 6, 7, 8, 9]
-    ∃ w idx, recordAll {} [[(k1, v)], [(k2, v), (k1, [])]] = .ok (w, idx) ∧ idx = [0, 1] ∧
-      (flushKv id w).1.drop 27 = encKey k2 true ++ encValueOol 5 ∧
-      readSet ⟨(flushKv id w).1, encDescs (flushKv id w).2, 2, fun r => some r⟩ 1 = .ok [(k1, []), (k2, v)] :=
-  ⟨_, _, rfl, by decide, by decide, by decide⟩
+    ∃ wF, recordAll {} exampleSets = .ok (wF, [0, NONE32, 1, 0])
+      ∧ (flushKv rawRef wF).1.drop 27 = encKey (prefixTrusted ++ [0x62]) true ++ encValueOol (rawRef 5)
+      ∧ [0, 1].map (readSet ((xattrFlush (fun _ => none) rawRef wF).reader (fun _ => none) rawPos))
+          = [.ok [(prefixUser ++ [0x61], [1, 2, 3, 4, 5, 6, 7, 8, 9])],
+             .ok [(prefixUser ++ [0x61], []), (prefixTrusted ++ [0x62], [1, 2, 3, 4, 5, 6, 7, 8, 9])]] := by
+  obtain ⟨wF, idxs, hrec, _, hread⟩ := xattr_input_roundtrip codecOk_none rawRef rawPos 44 (refOk_raw 44 (by decide))
+    exampleSets (by decide)
+  have hval : recordAll {} exampleSets = .ok (⟨[prefixUser ++ [0x61], prefixTrusted ++ [0x62]],
+      [([1, 2, 3, 4, 5, 6, 7, 8, 9], 4), ([], 1), ([5], 0)], [(0, 0), (0, 1), (1, 0)], 3, [(0, 1), (1, 2)]⟩, [0, NONE32, 1, 0]) := by
+    decide
+  rw [hval] at hrec
+  injection hrec with hrec
+  injection hrec with hw hi
+  subst hw; subst hi
+  have h := hread (by decide) (by decide) (by decide) (by decide)
+  refine ⟨_, hval, by decide, ?_⟩
+  have h0 := h 0 (by decide)
+  have h2 := h 2 (by decide)
+  rcases h0 with ⟨_, h0⟩ | ⟨_, _, out0, r0, e0, _⟩
+  · exact absurd h0 (by decide)
+  rcases h2 with ⟨_, h2⟩ | ⟨_, _, out2, r2, e2, _⟩
+  · exact absurd h2 (by decide)
+  simp only [List.map_cons, List.map_nil]
+  have i0 : [0, NONE32, 1, 0].getD 0 0 = 0 := rfl
+  have i2 : [0, NONE32, 1, 0].getD 2 0 = 1 := rfl
+  rw [i0] at r0; rw [i2] at r2
+  rw [r0, r2, e0, e2]
+  decide
+
+-- and `xattr_roundtrip` itself for that writer state, with the invariant's facts (`hp`, `hcount`) supplied by
+-- `recordAll_spec` rather than assumed
+example (wF : XWriter) (idxs : List Nat) (h : recordAll {} exampleSets = .ok (wF, idxs)) :
+    readSet ((xattrFlush (fun _ => none) rawRef wF).reader (fun _ => none) rawPos) 1 = .ok (wF.setOf 1) := by
+  obtain ⟨wF', idxs', hrec, hinv, _⟩ := recordAll_spec exampleSets {} xinv_empty (by decide)
+  rw [h] at hrec
+  injection hrec with hrec
+  injection hrec with hw _
+  subst hw
+  have hval : recordAll {} exampleSets = .ok (⟨[prefixUser ++ [0x61], prefixTrusted ++ [0x62]],
+      [([1, 2, 3, 4, 5, 6, 7, 8, 9], 4), ([], 1), ([5], 0)], [(0, 0), (0, 1), (1, 0)], 3, [(0, 1), (1, 2)]⟩, [0, NONE32, 1, 0]) := by
+    decide
+  rw [hval] at h
+  injection h with h
+  injection h with hw _
+  subst hw
+  exact xattr_roundtrip codecOk_none rawRef rawPos 44 (refOk_raw 44 (by decide)) _ (by decide) (by decide) (by decide)
+    hinv.pairOk hinv.count 1 (by decide) (by decide)
 
 /-- **Which index `sqfs_xattr_writer_end` hands out** (set dedup, sorting).  With the blocks recorded so far lying in
 front of `kv_start` (true from the empty writer on, and re-established here): an empty set gets `0xFFFFFFFF`; a
@@ -282,12 +371,23 @@ def exampleXWriter : XWriter where
 example : (endSet exampleXWriter).2 = 0 ∧ (endSet exampleXWriter).1.pairs = [(0, 0), (1, 1)]
     ∧ (endSet exampleXWriter).1.blocks = [(0, 2)] := by decide
 
-/-- **Index safety of `locations[]`** in the (repaired) `write_id_table`: every store has an index below the number
-of slots `alloc_location_table` provided — for every number of sets, multiples of 512 included, and every block
-layout (`blockAfter`).  The code as it is in /repo violates this: `Witness.xattr_locations_overflow`. -/
-theorem xattr_loc_index_lt_count (blockAfter : Nat → Nat) (n : Nat) (hn : 0 < n) :
-    ∀ s ∈ locStores (some (locCount n)) blockAfter n, s.1 < locCount n :=
-  locStores_lt blockAfter n hn
+/-- **`locations[]` of the xattr id table: every store in range, and the table complete.**  (1) In the (repaired)
+`write_id_table` every store has an index below the number of slots `alloc_location_table` provided — for every number
+of sets, multiples of 512 included, and every block layout (`blockAfter`); the code before the repair violated this:
+`Witness.xattr_locations_overflow`.  (2) For every writer state with at least one set and every codec, the array
+written has exactly one entry per descriptor metadata block — `locCount n` of them — and entry `k` is the start offset
+of block `k`: nothing the reader's `locations[idx * 16 / 8192]` can ask for is missing or stale. -/
+theorem xattr_loc_index_lt_count :
+    (∀ (blockAfter : Nat → Nat) (n : Nat), 0 < n → ∀ s ∈ locStores (some (locCount n)) blockAfter n, s.1 < locCount n)
+    ∧ (∀ (cmp : Codec) (refOf : Nat → Nat) (w : XWriter), 0 < (flushKv refOf w).2.length →
+        (xattrFlush cmp refOf w).locs
+            = (List.range (xattrFlush cmp refOf w).idBlocks.length).map (startOf (xattrFlush cmp refOf w).idBlocks)
+        ∧ (xattrFlush cmp refOf w).idBlocks.length = locCount (xattrFlush cmp refOf w).descs.length) :=
+  ⟨locStores_lt, fun cmp refOf w hn => xattrFlush_locs cmp refOf w hn⟩
+
+-- 1025 sets need three slots; the stores of the repaired code are exactly slots 0, 1, 2 (instantiates (1) with n = 1025)
+example : (locStores (some (locCount 1025)) (fun k => k / 512 * 8194) 1025).map (·.1) = [0, 1, 2] ∧ locCount 1025 = 3
+    ∧ 0 < 1025 := by set_option maxRecDepth 100000 in decide
 
 /-! ## file contents -/
 
